@@ -20,5 +20,6 @@ Definition entry (sel : Z) (toks : list Z) : list Z :=
   | 105 => match run_dec dLawIn toks with Some l => eBool (law_job_pipelined l) | None => bad_input end
   | 106 => match run_dec dLawIn toks with Some l => eBool (law_refused l) | None => bad_input end
   | 107 => match run_dec dLawIn toks with Some l => eBool (law_guarantee l) | None => bad_input end
+  | 108 => match run_dec dLawIn toks with Some l => eBool (law_gang_cycle l) | None => bad_input end
   | _ => bad_input
   end.
